@@ -246,6 +246,10 @@ func (s ExtendedSpatialID) Higher(hDiff, vDiff int64) *ExtendedSpatialID {
 	var x = s.x / hDiv
 	var y = s.y / hDiv
 	var z = s.z / vDiv
+	if s.z < 0 && s.z%vDiv != 0 {
+		// 負の高さIDは床関数(floor)で親ボクセルを求める(整数除算は0方向への切り捨てのため補正)
+		z--
+	}
 
 	return &ExtendedSpatialID{
 		hZoom: hZoom,
